@@ -388,6 +388,8 @@ RULES = [
 ]
 from . import folds as _folds
 RULES = RULES + [_folds.fold_rule('C11')]
+from .. import refs as _refs
+RULES = RULES + [_refs.ref_rule('C11')]
 
 
 def run(tier="quick", replay=None):
